@@ -120,6 +120,20 @@ theorem dedupe_eq_firstOcc (us : List Str) : dedupe us = firstOcc us := by
   rw [dedupeLoop_spec us []]
   simp
 
+theorem firstOcc_of_nodup {α} [DecidableEq α] (l : List α) (h : l.Nodup) : firstOcc l = l := by
+  induction l with
+  | nil => rfl
+  | cons a rest ih =>
+    simp only [List.nodup_cons] at h
+    simp only [firstOcc, ih h.2]
+    rw [filter_ne_append_self rest a h.1]
+
+/-- **Processing is stable**: harvesting the classes again from an already deduplicated sequence
+changes nothing (a page that is post-processed twice — middleware after `render_dependencies` —
+sees the same classes in the same order). -/
+theorem collect_idempotent (ms : List Nat) : collect (collect ms) = collect ms := by
+  rw [collect_eq_firstOcc, collect_eq_firstOcc, firstOcc_of_nodup _ (nodup_firstOcc ms)]
+
 /-! ### the property clauses -/
 
 /-- **Exactly the rendered classes, once.**  A class's inline JS is delivered iff the class was
